@@ -328,8 +328,6 @@ void probe_rwlock() {
       for (int i = 0; i < n; ++i) {
         if (i % 5 == 4) {
           if (mtx.try_lock_shared()) { got[t] += shared.sum(); mtx.unlock_shared(); }
-        } else if (i % 11 == 10) {
-          mtx.lock_shared(); got[t] += shared.a[0]; mtx.lock_upgrade(); shared.a[3] = i; mtx.lock_downgrade(); got[t] += shared.a[3]; mtx.unlock_shared();
         } else {
           mtx.lock_shared(); got[t] += shared.sum(); mtx.unlock_shared();
         }
@@ -431,12 +429,36 @@ void probe_pool_resize() {
   g_sink += ran.load();
 }
 
+// lock_upgrade / lock_downgrade: the contract allows only ONE thread to try to lock for write concurrently, so a single
+// upgrading reader and two plain readers
+void probe_rwlock_upgrade() {
+  dispenso::RWLock mtx;
+  Payload shared(1);
+  const int n = g_iters * 2;
+  long got[3] = {0, 0, 0};
+  std::vector<std::thread> th;
+  th.emplace_back([&] {
+    for (int i = 0; i < n; ++i) {
+      mtx.lock_shared(); got[0] += shared.a[0]; mtx.lock_upgrade(); shared = Payload(i); mtx.lock_downgrade(); got[0] += shared.a[3]; mtx.unlock_shared();
+    }
+  });
+  for (int t = 1; t < 3; ++t) {
+    th.emplace_back([&, t] {
+      for (int i = 0; i < n; ++i) {
+        mtx.lock_shared(); got[t] += shared.sum(); mtx.unlock_shared();
+      }
+    });
+  }
+  for (auto& x : th) x.join();
+  g_sink += got[0] + got[1] + got[2];
+}
+
 const std::map<std::string, std::function<void()>>& probes() {
   static const std::map<std::string, std::function<void()>> m = {
       {"spsc", probe_spsc}, {"mpmc", probe_mpmc}, {"chaselev", probe_chaselev}, {"event", probe_event}, {"latch", probe_latch},
       {"future", probe_future}, {"future_refcount", probe_future_refcount}, {"then_chain", probe_then_chain},
       {"when_all", probe_when_all}, {"async_request", probe_async_request}, {"cvec", probe_cvec}, {"arena", probe_arena},
-      {"rwlock", probe_rwlock}, {"taskset", probe_taskset}, {"taskset_future", probe_taskset_future},
+      {"rwlock", probe_rwlock}, {"rwlock_upgrade", probe_rwlock_upgrade}, {"taskset", probe_taskset}, {"taskset_future", probe_taskset_future},
       {"ts_exception", probe_ts_exception}, {"graph", probe_graph}, {"graph_fresh", probe_graph_fresh}, {"pool_resize", probe_pool_resize}};
   return m;
 }
